@@ -1,7 +1,8 @@
 #!/bin/sh
 # tryseed.sh <patch.diff> <property id>... : apply a seeded change to /repo, run the checks, undo it.
 patch="$(readlink -f "$1")"; shift
-cd /repo && { git apply "$patch" 2>/dev/null || git apply -3 "$patch" 2>/dev/null || { echo "patch does not apply"; exit 2; }; }
+[ -f "$(dirname "$patch")/patch_on_hooks.diff" ] && [ "$(basename "$patch")" = "patch.diff" ] && patch="$(dirname "$patch")/patch_on_hooks.diff"
+cd /repo && { git apply "$patch" 2>/dev/null || { echo "patch does not apply"; git checkout -q -- . ; git reset -q; exit 2; }; }
 git -C /repo reset -q
 cd /verif
 for p in "$@"; do
